@@ -153,6 +153,14 @@ def main():
              "kind_free_text": "real generated archetypes gated one attempt at a time by a custom FairnessCounter over harness resources carrying the spec's globals and mapping macros"},
             {"name": "tlc", "path": "harness/tlc", "serves_properties": ["C02", "C08", "C14", "C15", "C16"],
              "kind_free_text": "TLC used as an offline evaluator of recorded traces (Next membership, invariants as written) and constant expressions; never explores"},
+            {"name": "adapters", "path": "harness/adapters", "serves_properties": ["C02", "C08", "C09", "C14", "C15", "C16"],
+             "kind_free_text": "one adapter per spec/Go pair (all systems/* except raftres, and the compiler test pairs): constants, spec globals, process tables, Go-local to TLA+ renaming, mapping macros, Go-side monitors; step-wise TLC validator for the .expectpcal artefacts"},
+            {"name": "cluster", "path": "harness/cluster", "serves_properties": ["C08", "C09", "C14"],
+             "kind_free_text": "real deployments through the repository's bootstrap code over 127.0.0.1 with online commit-point monitors (H1) and client-boundary histories"},
+            {"name": "linz", "path": "harness/linz", "serves_properties": ["C09", "C14"],
+             "kind_free_text": "porcupine per-key register model, at-least-once register model, classification of non-linearizable histories"},
+            {"name": "refval", "path": "harness/refval", "serves_properties": ["C03"],
+             "kind_free_text": "independent reference evaluator of TLA+/TLC value semantics, calibrated against TLC"},
             {"name": "common", "path": "harness/common", "serves_properties": PROPS,
              "kind_free_text": "tier/seed, known-findings matching, replay and evidence files, child processes with watchdogs"},
         ],
